@@ -112,6 +112,16 @@ def run(ctx):
             for idx in (0, npts - 1, slice(0, npts), slice(None, None, 2), Ellipsis):
                 if not np.array_equal(amp[idx], full[idx]):
                     ctx.violate(f"indexing the amplitudes with {idx!r} differs from indexing the full array", cj, {"kind": "amp_index"})
+            # blocks that are kept: a block obtained earlier is still Q Q' S of its own grid points after later blocks
+            # (of the same shape, of another shape, in another order) were asked of the same object
+            if npts >= 2:
+                h = max(1, npts // 3)
+                for amp_obj, tag in ((amp, "function"),):
+                    blocks = [(sl, amp_obj[sl]) for sl in (slice(0, h), slice(h, 2 * h), slice(npts - h, npts), slice(0, h))]
+                    for sl, blk_ in blocks:
+                        if not np.array_equal(blk_, full[sl]):
+                            ctx.violate(f"a block of amplitudes ({sl}) obtained earlier changed after later blocks were computed from the same object ({tag})", cj, {"kind": "amp_blocks_kept"})
+                            break
             try:
                 amp[np.zeros((1, 1), dtype=int)]
                 ctx.violate("a 2-D index into the amplitudes is accepted", cj, {"kind": "amp_index"})
@@ -124,7 +134,18 @@ def run(ctx):
             th = scat.make_angles(n)
             M = S(th[None, :], th[:, None])  # M[j, i] = S(inc_i, out_j)
             mdict = {k: np.ascontiguousarray(M) for k in ("LL", "LT", "TL", "TT")}
-            ampm = model.model_amplitudes_factory(np.asarray(tx), np.asarray(rx), view, rw, mdict, scat_angle=a)[...]
+            ampm_obj = model.model_amplitudes_factory(np.asarray(tx), np.asarray(rx), view, rw, mdict, scat_angle=a)
+            ampm = ampm_obj[...]
+            if npts >= 2:
+                h = max(1, npts // 3)
+                ref_m = np.array(ampm, copy=True)
+                blocks = [(sl, ampm_obj[sl]) for sl in (slice(0, h), slice(h, 2 * h), slice(npts - h, npts), slice(0, h))]
+                for sl, blk_ in blocks:
+                    if not np.array_equal(blk_, ref_m[sl]):
+                        ctx.violate(f"a block of amplitudes ({sl}) obtained earlier changed after later blocks were computed from the same object (matrix scattering)", cj, {"kind": "amp_blocks_kept"})
+                        break
+                if not np.array_equal(ampm, ref_m):
+                    ctx.violate("the full amplitude array obtained earlier changed after blocks were computed from the same object (matrix scattering)", cj, {"kind": "amp_blocks_kept"})
             interp = scat.interpolate_matrix(np.ascontiguousarray(M))
             want_m = interp(ttx[:, tx] - a, trx[:, rx] - a) * Q[:, tx] * Qp[:, rx]
             if np.abs(ampm - want_m).max() > 1e-12 * scale:
